@@ -227,7 +227,47 @@ def run_2d(ctx, p):
     ctx.nontrivial('2d', which, [float('%.9g' % x) for x in np.r_[p.get('q', p.get('a')), ths]])
 
 
-RUNNERS = {'rev3': run_rev3, 'pris3': run_pris3, '2d': run_2d}
+def run_multi3(ctx, p):
+    """several unit twists (revolute about axes through points, or prismatic) held by one Twist3: scalar multiples, exp with a
+    scalar, with one theta per twist and with no argument, and the reported pitch / theta / prismatic flags, value by value"""
+    sm = S()
+    kinds, axes, pts, k, ths = p['kinds'], [np.asarray(a, float) for a in p['axes']], [np.asarray(q, float) for q in p['pts']], p['k'], p['thetas']
+    sig = dict(api='Twist3.multi')
+    try:
+        tws = [sm.Twist3.Revolute(a, q) if kd == 'R' else sm.Twist3.Prismatic(a) for kd, a, q in zip(kinds, axes, pts)]
+        T = sm.Twist3(tws)
+        n = len(tws)
+        Sv = [np.asarray(t.S, dtype=np.float64) for t in tws]
+        sc = max(1.0, max(float(np.max(np.abs(q))) for q in pts)) * max(1.0, abs(k), max(abs(t) for t in ths))
+        Tk = T * k
+        ok = type(Tk) is sm.Twist3 and len(Tk) == n and all(md(Tk.data[i], Sv[i] * k) <= 1e-12 * max(1.0, float(np.max(np.abs(Sv[i] * k)))) for i in range(n))
+        ctx.judge('consistency', ok, dict(sig, kind='scalar_multiple_wrong'), lambda: 'Twist3(%d values) * %r holds %s, expected %s' % (n, k, core.short(getattr(Tk, 'data', Tk), 300), core.short([v * k for v in Sv], 300)))
+        kT = k * T
+        ok = type(kT) is sm.Twist3 and len(kT) == n and all(md(kT.data[i], Sv[i] * k) <= 1e-12 * max(1.0, float(np.max(np.abs(Sv[i] * k)))) for i in range(n))
+        ctx.judge('consistency', ok, dict(sig, kind='scalar_multiple_wrong', side='left'), lambda: '%r * Twist3(%d values) holds %s' % (k, n, core.short(getattr(kT, 'data', kT), 300)))
+        for name, got, want in (('(S*k).exp()', Tk.exp(), [ref.f64(ref.exp_twist_ld(v * k)) for v in Sv]),
+                                ('S.exp(k)', T.exp(k), [ref.f64(ref.exp_twist_ld(v * k)) for v in Sv]),
+                                ('S.exp([theta_i])', T.exp(list(ths)), [ref.f64(ref.exp_twist_ld(v * t)) for v, t in zip(Sv, ths)]),
+                                ('S.exp()', T.exp(), [ref.f64(ref.exp_twist_ld(v)) for v in Sv])):
+            ok = type(got) is sm.SE3 and len(got) == n
+            d = max(md(got.data[i], want[i]) for i in range(n)) if ok else math.inf
+            ctx.judge('motion', d <= TOL * sc, dict(sig, kind='exp_of_sequence_wrong', call=name),
+                      lambda: '%s on %d unit twists differs from the per-value exponential by %.3g (k=%r thetas=%s kinds=%s)' % (name, n, d, k, ths, kinds))
+        pit, th, pr = T.pitch(), T.theta(), T.isprismatic
+        if n > 1:
+            okp = len(pit) == n and all(abs(float(x)) <= 1e-9 * sc for x, kd in zip(pit, kinds) if kd == 'R')
+            okt = len(th) == n and all(abs(float(x) - (1.0 if kd == 'R' else 0.0)) <= 1e-12 for x, kd in zip(th, kinds))
+            okr = len(pr) == n and all(bool(x) == (kd == 'P') for x, kd in zip(pr, kinds))
+            ctx.judge('accessors', okp and okt and okr, dict(sig, kind='per_value_report_wrong'),
+                      lambda: 'pitch=%s theta=%s isprismatic=%s for unit twists of kinds %s' % (pit, th, pr, kinds))
+    except Exception as e:
+        ctx.bad('consistency', dict(sig, kind='raised', exc=type(e).__name__, where=_where(e)), 'multi-valued twist checks raised %r' % e)
+        return
+    ctx.cell('multi3', len(kinds), ''.join(sorted(set(kinds))), type(k).__name__)
+    ctx.nontrivial('multi3', kinds, [float('%.9g' % x) for a in axes for x in a], k)
+
+
+RUNNERS = {'multi3': run_multi3, 'rev3': run_rev3, 'pris3': run_pris3, '2d': run_2d}
 
 
 def REACH():
@@ -252,6 +292,11 @@ def run(ctx):
         drive(RUNNERS, ctx, 'rev3', p)
         if ctx.ncases % 499 == 1:
             ctx.sample(dict(case='rev3', **p), limit=4)
+    for _ in range(ctx.scale(400, 8000)):
+        n = int(rng.integers(1, 5))
+        k = [2, 3, -1, -2][rng.integers(4)] if rng.random() < 0.4 else float(thetas(rng))
+        drive(RUNNERS, ctx, 'multi3', dict(kinds=['R' if rng.random() < 0.75 else 'P' for _ in range(n)], axes=[gen.axis(rng) for _ in range(n)],
+                                            pts=[gen.vec(rng, 3, 1e-3, 1e3) for _ in range(n)], k=k, thetas=[float(thetas(rng)) for _ in range(n)]))
     for _ in range(ctx.scale(500, 10000)):
         nv = 1 if rng.random() < 0.7 else int(rng.integers(2, 5))
         drive(RUNNERS, ctx, 'pris3', dict(a=gen.axis(rng), thetas=[thetas(rng) for _ in range(nv)]))
